@@ -223,12 +223,12 @@ def parse_statement(s):
     m = re.match(r'discriminant\((.*)\) = (-?\d+)$', s)
     if m:
         p, _ = parse_place(m.group(1)); return ('setdiscr', p, int(m.group(2)))
-    k = s.find(' = ')
-    if k < 0:
+    if s.find(' = ') < 0:
         return ('unsupported', s)
     try:
-        p, j = parse_place(s, 0)
-        assert j == k, s
+        p, j = parse_place(s, 0)          # the place ends where its parentheses close: ' = ' inside a type is skipped
+        assert s.startswith(' = ', j), s
+        k = j
         return ('assign', p, parse_rvalue(s[k + 3:]))
     except (ValueError, AssertionError, IndexError) as e:
         return ('unsupported', s)
